@@ -223,4 +223,218 @@ theorem parseQuantity_sat {q : List Tok} (hq : WF q) (h : G ts e s) :
   refine Sat.bind (Sat.modify ?_)
   exact Sat.pure ⟨⟨h.toks, g2.ext, g2.panic, h.le⟩, rfl⟩
 
+/-! ### Components (src/parser/step.rs) -/
+
+/-- what the component parsers rely on about a parsed body: the name tokens are a run starting at
+    the offset where the body started; a quantity, if any, is a non-empty run -/
+def BodyOK (ts : List Tok) (c : Nat) (b : Body) : Prop :=
+  RunAt (offAt ts c) b.name ∧ ∀ q, b.quantity = some q → WF q
+
+theorem slice_ne_nil_lt {i j : Nat} (h : slice ts i j ≠ []) : i < j := by
+  have : (slice ts i j).length ≠ 0 := by
+    intro h0; exact h (List.length_eq_zero_iff.mp h0)
+  rw [slice_length] at this; omega
+
+theorem compBodyLong_sat (hw : WF ts) (h : G ts e s) :
+    Sat (compBodyLong (α := α)) s (fun r s' => G ts e s' ∧
+      match r with
+      | none => s'.cur = s.cur
+      | some b => s.cur < s'.cur ∧ BodyOK ts s.cur b) := by
+  unfold compBodyLong
+  apply withRecover_sat
+  refine Sat.bind (Sat.mono (untilK_sat _ h) ?_)
+  rintro r1 s1 ⟨g1, h1⟩
+  cases r1 with
+  | none => exact Sat.pure ⟨g1.setCur h.le, rfl⟩
+  | some name =>
+    obtain ⟨c1, hname, -, -⟩ := h1
+    refine Sat.bind (Sat.mono (consumeK_sat _ g1) ?_)
+    rintro r2 s2 ⟨g2, h2⟩
+    cases r2 with
+    | none => exact Sat.pure ⟨g2.setCur h.le, rfl⟩
+    | some ob =>
+      obtain ⟨-, -, c2⟩ := h2
+      refine Sat.bind (Sat.mono (untilK_sat _ g2) ?_)
+      rintro r3 s3 ⟨g3, h3⟩
+      cases r3 with
+      | none => exact Sat.pure ⟨g3.setCur h.le, rfl⟩
+      | some q =>
+        obtain ⟨c3, hq, ⟨t, ht, hk⟩, -⟩ := h3
+        refine Sat.bind (Sat.mono (bump_sat g3 ht (by simpa using hk)) ?_)
+        rintro cb s4 ⟨-, g4, c4⟩
+        refine Sat.pure ⟨g4, by omega, ?_, ?_⟩
+        · rw [hname]; exact slice_runAt hw.run c1
+        · intro q' hq'
+          dsimp only at hq'
+          split at hq'
+          · rename_i hany
+            simp only [Option.some.injEq] at hq'
+            subst hq'
+            have hr : RunAt (offAt ts s2.cur) q := by rw [hq]; exact slice_runAt hw.run c3
+            refine ⟨?_, hr.base⟩
+            intro h0; rw [h0] at hany; simp at hany
+          · cases hq'
+
+theorem compBodyShort_sat (hw : WF ts) (h : G ts e s) :
+    Sat (compBodyShort (α := α)) s (fun r s' => G ts e s' ∧
+      match r with
+      | none => s'.cur = s.cur
+      | some b => s.cur < s'.cur ∧ BodyOK ts s.cur b) := by
+  unfold compBodyShort
+  apply withRecover_sat
+  refine Sat.bind (Sat.mono (consumeWhile_sat _ h) ?_)
+  rintro toks s1 ⟨g1, c1, htoks, -, -⟩
+  split
+  · refine Sat.bind (restToks_sat g1 ?_)
+    refine Sat.bind (atK_sat g1 ?_)
+    split
+    · refine Sat.bind (currentOffset_sat g1 ?_)
+      refine Sat.bind (Sat.pwarn ?_)
+      intro evs
+      exact Sat.pure ⟨(g1.setEvs evs).setCur h.le, rfl⟩
+    · exact Sat.pure ⟨g1.setCur h.le, rfl⟩
+  · rename_i hne
+    refine Sat.pure ⟨g1, ?_, ?_, ?_⟩
+    · apply slice_ne_nil_lt (ts := ts)
+      rw [← htoks]; intro h0; rw [h0] at hne; simp at hne
+    · rw [htoks]; exact slice_runAt hw.run c1
+    · intro q hq; cases hq
+
+theorem compBody_sat (hw : WF ts) (h : G ts e s) :
+    Sat (compBody (α := α)) s (fun r s' => G ts e s' ∧
+      match r with
+      | none => s'.cur = s.cur
+      | some b => s.cur < s'.cur ∧ BodyOK ts s.cur b) := by
+  unfold compBody
+  refine Sat.bind (Sat.mono (compBodyLong_sat hw h) ?_)
+  rintro r s1 ⟨g1, h1⟩
+  cases r with
+  | some b => exact Sat.pure ⟨g1, h1⟩
+  | none =>
+    dsimp only at h1
+    refine Sat.mono (compBodyShort_sat hw g1) ?_
+    rintro r s2 ⟨g2, h2⟩
+    refine ⟨g2, ?_⟩
+    cases r with
+    | none => exact h2.trans h1
+    | some b => rw [h1] at h2; exact h2
+
+/-! ### Modifiers -/
+
+/-- the shape of the token run consumed by `modifiers()`: modifier characters, and (with the
+    intermediate-preparations extension) `&` followed by a parenthesised group that is closed -/
+inductive ModSeq (inter : Bool) : List Tok → Prop
+  | nil : ModSeq inter []
+  | tok (t : Tok) (rest : List Tok) : (modifierFlag t.kind).isSome = true → ModSeq inter rest →
+      ModSeq inter (t :: rest)
+  | ref (a o c : Tok) (mid rest : List Tok) : inter = true → a.kind = .and → o.kind = .openParen →
+      (∀ t ∈ mid, (t.kind == .closeParen) = false) → c.kind = .closeParen → ModSeq inter rest →
+      ModSeq inter (a :: o :: (mid ++ c :: rest))
+
+theorem ModSeq.head_flag {inter : Bool} {x : Tok} {l : List Tok} (h : ModSeq inter (x :: l)) :
+    (modifierFlag x.kind).isSome = true := by
+  cases h with
+  | tok _ _ hf _ => exact hf
+  | ref _ _ _ _ _ _ ha _ _ _ _ => rw [ha]; rfl
+
+theorem modifiersLoop_sat (inter : Bool) (fuel : Nat) (h : G ts e s) :
+    Sat (modifiersLoop (α := α) inter fuel) s (fun _ s' => G ts e s' ∧ s.cur ≤ s'.cur ∧
+      ModSeq inter (slice ts s.cur s'.cur)) := by
+  induction fuel generalizing s with
+  | zero =>
+    unfold modifiersLoop
+    exact Sat.pure ⟨h, Nat.le_refl _, by rw [slice_self]; exact .nil⟩
+  | succ fuel ih =>
+    unfold modifiersLoop
+    refine Sat.bind (peekK_sat h ?_)
+    split
+    · rename_i k hk
+      obtain ⟨t, ht, htk⟩ := peek_some hk
+      split
+      · rename_i hmod
+        refine Sat.bind (Sat.mono (bumpAny_sat h ht) ?_)
+        rintro _ s1 ⟨-, g1, c1⟩
+        refine Sat.mono (ih g1) ?_
+        rintro _ s2 ⟨g2, c2, hm⟩
+        refine ⟨g2, by omega, ?_⟩
+        rw [slice_append ts (Nat.le_succ s.cur) (by omega : s.cur + 1 ≤ s2.cur), slice_one ht]
+        rw [c1] at hm
+        refine .tok t _ ?_ hm
+        rw [htk]
+        revert hmod; cases k <;> simp [isModifierTok, modifierFlag]
+      · split
+        · rename_i hand
+          have hand' : t.kind = .and := by rw [htk]; simpa using hand
+          refine Sat.bind (Sat.mono (bumpAny_sat h ht) ?_)
+          rintro _ s1 ⟨-, g1, c1⟩
+          dsimp only
+          have hflag : (modifierFlag t.kind).isSome = true := by rw [hand']; rfl
+          have hsimple : ∀ s2 : BP α, G ts e s2 → s2.cur = s1.cur →
+              Sat (modifiersLoop (α := α) inter fuel) s2 (fun _ s' => G ts e s' ∧ s.cur ≤ s'.cur ∧
+                ModSeq inter (slice ts s.cur s'.cur)) := by
+            intro s2 g2 c2
+            refine Sat.mono (ih g2) ?_
+            rintro _ s3 ⟨g3, c3, hm⟩
+            refine ⟨g3, by omega, ?_⟩
+            rw [slice_append ts (Nat.le_succ s.cur) (by omega : s.cur + 1 ≤ s3.cur), slice_one ht]
+            rw [c2, c1] at hm
+            exact .tok t _ hflag hm
+          split
+          · rename_i hinter
+            apply Sat.bind
+            apply withRecover_sat
+            refine Sat.bind (Sat.mono (consumeK_sat _ g1) ?_)
+            rintro r2 s2 ⟨g2, h2⟩
+            cases r2 with
+            | none =>
+              refine Sat.pure ?_
+              exact hsimple _ (g2.setCur g1.le) rfl
+            | some o =>
+              obtain ⟨ho, hok, c2⟩ := h2
+              refine Sat.bind (Sat.mono (untilK_sat _ g2) ?_)
+              rintro r3 s3 ⟨g3, h3⟩
+              cases r3 with
+              | none =>
+                refine Sat.pure ?_
+                exact hsimple _ (g3.setCur g1.le) rfl
+              | some mid =>
+                obtain ⟨c3, hmid, ⟨c, hc, hck⟩, hnone⟩ := h3
+                refine Sat.bind (Sat.mono (bump_sat g3 hc (by simpa using hck)) ?_)
+                rintro _ s4 ⟨-, g4, c4⟩
+                refine Sat.pure ?_
+                refine Sat.mono (ih g4) ?_
+                rintro _ s5 ⟨g5, c5, hm⟩
+                refine ⟨g5, by omega, ?_⟩
+                have e1 : slice ts s.cur s5.cur = t :: o :: (mid ++ c :: slice ts s4.cur s5.cur) := by
+                  have p1 : slice ts s.cur s1.cur = [t] := by rw [c1]; exact slice_one ht
+                  have p2 : slice ts s1.cur s2.cur = [o] := by rw [c2]; exact slice_one ho
+                  have p4 : slice ts s3.cur s4.cur = [c] := by rw [c4]; exact slice_one hc
+                  rw [slice_append ts (i := s.cur) (j := s1.cur) (k := s5.cur) (by omega) (by omega),
+                    slice_append ts (i := s1.cur) (j := s2.cur) (k := s5.cur) (by omega) (by omega),
+                    slice_append ts (i := s2.cur) (j := s3.cur) (k := s5.cur) (by omega) (by omega),
+                    slice_append ts (i := s3.cur) (j := s4.cur) (k := s5.cur) (by omega) (by omega),
+                    p1, p2, p4, ← hmid]
+                  simp
+                rw [e1]
+                exact .ref t o c mid _ hinter hand' hok hnone (by simpa using hck) hm
+          · exact hsimple _ g1 rfl
+        · exact Sat.pure ⟨h, Nat.le_refl _, by rw [slice_self]; exact .nil⟩
+    · exact Sat.pure ⟨h, Nat.le_refl _, by rw [slice_self]; exact .nil⟩
+
+theorem modifiersP_sat (h : G ts e s) :
+    Sat (modifiersP (α := α)) s (fun r s' => G ts e s' ∧ s.cur ≤ s'.cur ∧
+      ModSeq (e.has Gen.EXT_INTERMEDIATE_PREPARATIONS) r) := by
+  unfold modifiersP
+  refine Sat.bind (hasExt_sat h ?_)
+  split
+  · exact Sat.pure ⟨h, Nat.le_refl _, .nil⟩
+  refine Sat.bind (Sat.getCur ?_)
+  refine Sat.bind (hasExt_sat h ?_)
+  refine Sat.bind (restToks_sat h ?_)
+  refine Sat.bind (Sat.mono (modifiersLoop_sat _ _ h) ?_)
+  rintro _ s1 ⟨g1, c1, hm⟩
+  refine Sat.bind (Sat.get ?_)
+  refine Sat.pure ⟨g1, c1, ?_⟩
+  rw [g1.toks]; exact hm
+
 end Cook
